@@ -34,4 +34,33 @@ CONTRACTS = {
                 "invariant": ["len(_yield) == _i",
                               "all(all(k in _yield[j] and _yield[j][k] is mapped_values[k][j] for k in mapped_values) for j in range(_i))"]}],
     ),
+    F + "generate_map_inputs": dict(
+        props=["C10"],
+        generator=True,
+        params={"values": DICT(STR, ANY), "map_over": SEQ(STR), "map_mode": STR, "clone": ANY},
+        returns=SEQ(DICT(STR, ANY)),
+        requires=["all(k in values for k in map_over)"],
+        # an unknown mode is rejected; the two known modes delegate (their own failures pass through)
+        may_raise={"ValueError": True, "Exception": True},
+        trace=[{"name": "C10 zip mode expands position-wise, product mode as the cartesian product; nothing else is accepted",
+                "check": lambda tr, outcome, raised, env, ex, s: __import__("contracts.c_map", fromlist=["x"]).mode_dispatch(tr, outcome, raised, env, ex, s)}],
+    ),
 }
+
+
+def mode_dispatch(tr, outcome, raised, env, ex, s):
+    import z3
+    from pyvc.engine import eq, lift
+    from contracts.tracelib import names
+    ns = names(tr)
+    z, p = ns.count("_generate_zip_inputs"), ns.count("_generate_product_inputs")
+    is_zip, is_prod = eq(env["map_mode"], lift("zip"), s), eq(env["map_mode"], lift("product"), s)
+    if z + p > 1:
+        return False
+    if z == 1:
+        return is_zip
+    if p == 1:
+        return z3.And(z3.Not(is_zip), is_prod)
+    if outcome == "return":
+        return False
+    return z3.And(z3.Not(is_zip), z3.Not(is_prod))
